@@ -709,6 +709,19 @@ pub fn parser_inputs(tier: &str, rng: &mut Rng, f: &mut dyn FnMut(&[u8], u8)) {
                         }
                     }
                 }
+                // beyond 64 bits: 16..33 TLF bytes of significant nibbles (an accumulator wider than 32 bits overflows too)
+                for nb in [16usize, 17, 18, 24, 33] {
+                    for (first, fill, last) in [(0x0fu8, 0x0fu8, 0x0fu8), (0x01, 0x00, 0x06), (0x01, 0x00, 0x00)] {
+                        let mut t = vec![0x80 | (e.ty << 4) | first];
+                        for _ in 0..nb - 2 {
+                            t.push(0x80 | fill);
+                        }
+                        t.push(last);
+                        let mut q = p.clone();
+                        q.splice(e.pos..e.pos + e.tlf_len, t);
+                        f(&q, 4);
+                    }
+                }
                 // beyond 32 bits: 9..12 TLF bytes
                 for extra in [9usize, 10, 12] {
                     let mut t = vec![0x80 | (e.ty << 4) | 1];
